@@ -353,6 +353,8 @@ pub fn run(run: &mut Run) {
     run.assumptions = vec!["the harness encoder follows the published Aseprite file specification".into(), "layer flags: only the 7 defined bits are compared".into()];
     let (lanes, cases) = if run.thorough() { (16, 40000) } else { (16, 1500) };
     run_tapes(run, lanes, cases, 1500, &check);
+    // thorough only: coverage-guided search over generator tapes with the same oracle
+    crate::fuzzstage::fuzz_tapes(run, 1500, 120);
 }
 
 pub fn replay(case: &serde_json::Value) -> CheckResult {
